@@ -78,6 +78,7 @@ class Result:
         self.trap_sites_seen = set()
         self.dropped_wraps = []
         self.dropped_notes = []
+        self.stopped = []         # states handed back by Analyzer.stop_hook instead of being continued
 
 
 def tz_of(x):
@@ -117,6 +118,8 @@ def nxt(x, up, kind):
 class Analyzer:
     def __init__(self, mod, fn, join_threshold=300, max_states=400000, max_iter=80, early_join=8):
         self.early_join = early_join
+        self.stop_hook = None     # optional predicate on a state arriving at a block: collect it in Result.stopped and do not continue
+        self.isqrt_spec = {}      # loop head -> verified integer-square-root summary (fxai.isqrt.prepare); applied at first arrival
         self.partition = {}
         self.symdeps = {}
         self.fp80src = {}
@@ -919,6 +922,9 @@ class Analyzer:
                 res.stats["infeasible"] += 1
                 continue
             for s in out:
+                if self.stop_hook is not None and s.pc == 0 and getattr(s, 'arrived', False) and self.stop_hook(s):
+                    res.stopped.append(s)
+                    continue
                 if s.block in self.merge_blocks and s.pc == 0 and getattr(s, 'arrived', False):
                     s.arrived = False
                     # evaluate phis now so that the signature is taken after them
@@ -948,8 +954,16 @@ class Analyzer:
                     if s.block in self.loop_heads and getattr(s, "arrived_head", None) != s.block:
                         # first arrival at this loop: remember the values it starts from (they name the loop's results)
                         try:
+                            fresh_ = s.pc <= len(self.head_phis[s.block])     # re-application is harmless: the entry condition fails
                             if s.pc == 0:
                                 self.do_phis(s)
+                            if fresh_ and s.block in self.isqrt_spec and self.stop_hook is None:
+                                from . import isqrt as _isq
+                                if _isq.apply_summary(self, s, s.block):
+                                    res.stats["loop_summaries"] = res.stats.get("loop_summaries", 0) + 1
+                                    s.arrived_head = s.block
+                                    active.append(s)
+                                    continue
                             ent = []
                             for n_ in self.head_phis[s.block]:
                                 ent.append(self.vsig(s, s.env[n_])[:3] if n_ in s.env else None)
